@@ -75,6 +75,10 @@ func planKey(site string, tied []string) string {
 }
 
 func planChooser(site string, tied []string) int {
+	if vsched.Active() {
+		// concurrently planned statements: always the canonically first candidate, nothing recorded
+		return 0
+	}
 	key := planKey(site, tied)
 	idx := planChoices[key]
 	if idx >= len(tied) {
